@@ -101,6 +101,12 @@ static void stage_scripts(Run &R) {
             if (d.size() < 150 || d.size() > 1200) continue;
             if (!go(d)) return;
         }
+    for (const Bytes &d : gen::idn_mapped_shapes("iana", "org")) if (!go(d)) return;
+    for (const Bytes &d : gen::idn_mapped_shapes("\xD0\xBF\xD0\xBE\xD1\x87\xD1\x82\xD0\xB0", "\xD1\x80\xD1\x84")) if (!go(d)) return;
+    for (const Bytes &d : gen::idn_mapped_shapes("mail", "localhost")) if (!go(d)) return;
+    // supplementary-plane labels: 4 UTF-8 octets per character, near-maximal labels (U-form > 765 octets, A-form <= 253)
+    for (uint32_t cp : {0x20000u, 0x2A700u, 0x1F600u, 0x10348u}) for (uint32_t n : {20u, 40u, 50u, 55u, 56u, 57u}) for (uint32_t nl : {1u, 2u, 3u, 4u}) {
+        Bytes d; for (uint32_t k = 0; k < nl; k++) { for (uint32_t i = 0; i < n; i++) d += ref::utf8_encode(cp); d += '.'; } d += "com"; if (!go(d)) return; }
     static const char *BAD[] = {"\xE2\x99\xA5.de", "I\xE2\x99\xA5NY.de", "\xE2\x98\x95.de", "a\xE2\x80\x8D" "b.com", "-a.com", "a-.com", "ab--cd.com", "xn--.com", "xn--a.com", "xn--zzzzzzzz.com", "xn--p1ai.xn--p1ai", "XN--P1AI.com",
                                 "a..com", ".com", "a.com.", "\x80.com", "\xC3.com", "a\xFF.com", "\xEF\xBC\xA1.com", "\xC3\x9F.de", "\xCF\x82.gr", "a\xCC\x81.com", "\xD7\x90" "1.com", "1\xD7\x90.com", "\xD8\xA7" "a.com", "a_b.com", "a b.com", "a\x01.com"};
     for (const char *b : BAD) if (!go(b)) return;
